@@ -7,6 +7,8 @@ model: the flow chunked into consecutive blocks.  DESIGN.md 3, C16.
 """
 import itertools
 
+import copy
+
 import lena.core
 import lena.flow
 
@@ -55,7 +57,8 @@ EXPECTED_PROBES = ["push-buffer_output-overflow", "push-buffer_input-overflow", 
                    "post-element-sees-several-results-of-one-request", "same-object-run-twice",
                    "thousand-blocks-between-two-requests", "none-values-in-the-flow",
                    "element-with-both-interfaces", "run-element-with-reset-method-unasked",
-                   "run-element-with-reset-method-asked"]
+                   "run-element-with-reset-method-asked", "deep-copied-adapter",
+                   "element-with-request-and-compute"]
 
 BUDGET = 200000
 
@@ -86,6 +89,17 @@ class ProbeFCR(object):
         self.ncomp = 0
         self.nreset = 0
         self.stop_at = stop_at     # the element itself signals LenaStopFill at its k-th fill
+        self.copies = []
+
+    def __deepcopy__(self, memo):
+        # a copy of the element with the same (shared) event log; the original knows its copies
+        new = type(self)(self.log, self.name, self.results, self.stop_at)
+        new.filled = list(self.filled)
+        new.all_fills = list(self.all_fills)
+        new.ncomp = self.ncomp
+        new.nreset = self.nreset
+        self.copies.append(new)
+        return new
 
     def fill(self, v):
         if self.stop_at is not None and len(self.all_fills) >= self.stop_at:
@@ -116,6 +130,14 @@ class ProbeFRR(ProbeFCR):
         return ProbeFCR.compute(self)
 
     compute = None
+
+
+class ProbeFRRDecoy(ProbeFRR):
+    """fill and request, and also a compute that must not be used (request is there)"""
+
+    def compute(self):
+        self.log.ev("compute-decoy", self.name)
+        yield (self.name, "decoy")
 
 
 class ProbeBoth(ProbeFRR):
@@ -240,6 +262,10 @@ def gen_scenario(tape):
         sc.run_reset = tape.weighted([(2, "none"), (1, "unasked"), (1, "asked")], "run-element-reset-method")
     # an element with both interfaces (run, and fill with request)
     sc.both = sc.kind == "fr" and sc.wrapper != "seq" and tape.chance(1, 4, "element-with-both-interfaces")
+    # a fill/request element that also has a compute method
+    sc.fr_decoy = sc.kind == "fr" and not sc.both and tape.chance(1, 4, "request-and-compute")
+    # the adapter that is driven is a deep copy
+    sc.deepcopy = sc.kind in ("fc", "fr") and tape.chance(1, 5, "deep-copied-adapter")
     # bare None values in the flow
     sc.nones = []
     if not sc.long and tape.chance(1, 4, "none-values"):
@@ -261,6 +287,8 @@ def make_probe(sc, log):
         return ProbeFCR(log, "el", sc.results, getattr(sc, "stop_at", None))
     if sc.kind == "fr" and getattr(sc, "both", False):
         return ProbeBoth(log, "el", sc.results, getattr(sc, "stop_at", None))
+    if sc.kind == "fr" and getattr(sc, "fr_decoy", False):
+        return ProbeFRRDecoy(log, "el", sc.results, getattr(sc, "stop_at", None))
     if sc.kind == "fr":
         return ProbeFRR(log, "el", sc.results, getattr(sc, "stop_at", None))
     rr = getattr(sc, "run_reset", "none")
@@ -271,6 +299,22 @@ def make_probe(sc, log):
 
 
 def make_adapter(sc, probe):
+    ad = _make_adapter(sc, probe)
+    if getattr(sc, "deepcopy", False):
+        # what is driven is a deep copy of the adapter (as Vectorize or a user copying a Split
+        # would make): it must work on its own copy of the element
+        ad = copy.deepcopy(ad)
+    return ad
+
+
+def current_probe(sc, probe):
+    """the probe that the driven adapter wraps"""
+    if getattr(sc, "deepcopy", False) and probe.copies:
+        return probe.copies[-1]
+    return probe
+
+
+def _make_adapter(sc, probe):
     kw = dict(bufsize=sc.n, yield_on_remainder=sc.remainder)
     if sc.buffer == "input":
         kw["buffer_input"] = True
@@ -392,6 +436,12 @@ def run(tape):
     if sc.nones:
         res.probe("none-values-in-the-flow")
         res.say("the values at positions %r are None" % (sc.nones,))
+    if sc.deepcopy:
+        res.probe("deep-copied-adapter")
+        res.say("a deep copy of the adapter is driven")
+    if sc.fr_decoy:
+        res.probe("element-with-request-and-compute")
+        res.say("the wrapped element has request and also a compute method")
     if sc.both:
         res.probe("element-with-both-interfaces")
         res.say("the wrapped element has run as well as fill and request")
@@ -434,6 +484,7 @@ def drive_run(sc, res, values, cfg):
     log = res.log
     probe = make_probe(sc, log)
     obj = wrap(sc, make_adapter(sc, probe), log)
+    probe = current_probe(sc, probe)
     log.ev("op", "run", len(values))
     flow = iter([mk(s) for s in values])
     got, hang = guarded(res, "run", lambda: list(obj.run(flow)))
@@ -519,6 +570,7 @@ def drive_push(sc, res, values, cfg):
         res.probe("thousand-blocks-between-two-requests")
     probe = make_probe(sc, log)
     adapter = make_adapter(sc, probe)
+    probe = current_probe(sc, probe)
     obj = wrap(sc, adapter, log)
     if sc.wrapper == "seq":
         res.probe("fillrequestseq-push")
@@ -634,6 +686,7 @@ def drive_split(sc, res, values, cfg):
     log = res.log
     probe = make_probe(sc, log)
     adapter = make_adapter(sc, probe)
+    probe = current_probe(sc, probe)
     B = sc.B
     n = sc.n
     branches = []
